@@ -899,6 +899,45 @@ def count_tokens(s):
     return n
 
 
+def long_texts(rng, count):
+    """hand texts that are LONG for their token count: tokens with tails of up to 120 characters, whitespace runs of up to 40
+    characters, total length from a dozen to several hundred bytes; exactly n tokens or n - 1"""
+    out = []
+    card_tokens = [[r, s] for r in RANK_SYMS[:13] for s in SUIT_SYMS[:8:2] + SUIT_SYMS[8:12]]
+    tail_chars = [ord(c) for c in "abcdefghijklmnopqrstuvwxyzAKQJT0123456789()-_.,;:"] + [0x2660, 0x2665, 0xE9, 0x4E2D]
+    for j in range(count):
+        n = 2 + j % 6
+        nt = n if j % 5 else n - 1
+        s = [rng.choice(WS_CHARS) for _ in range(rng.below(3) * rng.below(20))]
+        for t_ in range(nt):
+            tok = list(rng.choice(card_tokens)) if rng.below(5) else [rng.choice(tail_chars)]
+            tok += [rng.choice(tail_chars) for _ in range((0, 3, 30, 120)[rng.below(4)] and rng.below((0, 3, 30, 120)[rng.below(4)] + 1))]
+            s += tok
+            if t_ + 1 < nt or rng.below(2):
+                s += [rng.choice(WS_CHARS) for _ in range(1 + rng.below(3) * rng.below(20))]
+        out.append("parsehand %d %s" % (n, " ".join(str(c) for c in s)))
+    return out
+
+
+def long_token_lists(rng, count):
+    """texts of MANY tokens (8 .. 150) for the bit-set parser: cards with repeats, blanks and junk, and a card that appears for the
+    first time at the very end (so that nothing may stop reading early)"""
+    out = []
+    names = [[ord("AKQJT98765432"[12 - r]), ord("cdhs"[s_])] for s_ in range(4) for r in range(13)]
+    for j in range(count):
+        nt = (8, 9, 20, 52, 53, 54, 60, 104, 150)[j % 9] + rng.below(3)
+        pool = [rng.choice(names) for _ in range(1 + rng.below(12))]
+        fresh = rng.choice([nm for nm in names if nm not in pool] or names)
+        s = []
+        for t_ in range(nt - 1):
+            k = rng.below(10)
+            tok = rng.choice(pool) if k < 7 else ([ord("X"), ord("X")] if k < 9 else [ord("z")])
+            s += tok + [rng.choice(WS_CHARS) for _ in range(1 + rng.below(2))]
+        s += fresh
+        out.append("bcindex " + " ".join(str(c) for c in s))
+    return out
+
+
 def minimal_texts():
     out = []
     singles = [ord(c) for c in "AKQ2x7_s"]
@@ -987,6 +1026,8 @@ def c12_families(rng, tier):
             "random Unicode whitespace runs; tokens are cards, junk, or cards with tails", categories=cats, pinned=True),
         fam("minimal_texts", minimal_texts(), "hand parsers of sizes 2..7 on the SHORTEST texts: n or n-1 one-character or two-character tokens, "
             "one separator between tokens (each whitespace character in turn), with and without leading / trailing whitespace", pinned=True),
+        fam("long_texts", long_texts(rng, 1500 if tier == "quick" else 30000), "hand parsers on texts that are long for their token count: "
+            "tokens with tails of up to 120 characters, whitespace runs of up to 40, n or n - 1 tokens, up to several hundred bytes", pinned=True),
         fam("hand_texts_extra_tokens", extra, "hand parsers given MORE tokens than slots (beyond the property, which fixes too few and exactly "
             "enough: the model, like the code, ignores the rest)", beyond=True),
         fam("arbitrary_strings", arb, "seeded arbitrary scalar-value strings through the card, hand and bit-set parsers", pinned=True),
@@ -1083,6 +1124,8 @@ def c15_families(rng, tier):
             "the same on unions of whole bytes (+ extra bits; thorough: all unions of whole nibbles): dense regular sets", profiles=["release"], pinned=True),
         fam("from_hands", hands, "from_two .. from_seven over {52 cards, blank} with repetition", pinned=True),
         fam("from_text", texts, "BinaryCard::from_index on token texts", pinned=True),
+        fam("from_long_text", long_token_lists(rng, 900 if tier == "quick" else 20000), "BinaryCard::from_index on texts of 8 .. 150 tokens "
+            "(repeats, blanks, junk) whose last token is a card not seen before", pinned=True),
         fam("bcsetp_projection", [l.replace("bcfrom ", "bcsetp ", 1) for l in hands[:3000]], "the projection the sweeps use, on model and "
             "implementation", pinned=True),
     ] + sweeps(rng, tier, lambda k: "bcsetp %d" % k, "1 1 1 1 1", "C15_projection",
